@@ -174,6 +174,11 @@ def negative_sierra_templates(out_dir):
     body["return_too_many"] = "dup_felt([0]) -> ([0], [1]);\nstore_felt([0]) -> ([0]);\nstore_felt([1]) -> ([1]);\nreturn([0], [1]);\n\nverif::f@0([0]: felt252) -> (felt252);\n"
     body["return_none_of_one"] = "drop_felt([0]) -> ();\nreturn();\n\nverif::f@0([0]: felt252) -> (felt252);\n"
     body["return_one_of_none"] = "store_felt([0]) -> ([0]);\nreturn([0]);\n\nverif::f@0([0]: felt252) -> ();\n"
+    # the path that arrives LATER at a merge carries fewer variables than the first one (use after drop behind the merge)
+    body["merge_count_fewer_later"] = ("dup_felt([0]) -> ([0], [2]);\nfelt252_is_zero([0]) { fallthrough() B([1]) };\nbranch_align() -> ();\njump() { M() };\n"
+                                       "B:\nbranch_align() -> ();\ndrop_nz([1]) -> ();\ndrop_felt([2]) -> ();\nM:\ndrop_felt([2]) -> ();\nreturn();\n\nverif::f@0([0]: felt252) -> ();\n")
+    # a multi-branch libfunc whose explicit target is a return statement (no branch_align)
+    body["branch_to_return"] = "felt252_is_zero([0]) { fallthrough() B([1]) };\nbranch_align() -> ();\nreturn();\nB:\nreturn();\n\nverif::f@0([0]: felt252) -> ();\n"
     for k, v in body.items():
         progs[k] = _HDR + v
     # frame state (environment/frame_state.rs): where alloc_local / finalize_locals are allowed.  Not part of the Coq
